@@ -43,6 +43,11 @@ type verifPipelineCase struct {
 	FillOthers bool `json:"fill_others"`
 	// run with the -verbose option on (the log itself is discarded)
 	Verbose bool `json:"verbose"`
+	// this pipeline's own outgoing queue is filled to capacity first (the producer has stalled) ...
+	FillOwn bool `json:"fill_own"`
+	// ... and the consumer wakes up after the datagrams with these indices (0-based) have been processed: everything queued
+	// is taken off then (fillers are dropped, messages are recorded in order); the rest is read at the end as always
+	DrainAfter []int `json:"drain_after"`
 	// enterprise elements to install into ipfix.InfoModel first: [enterprise no, element id, FieldType]
 	ExtElements [][3]uint32 `json:"ext_elements"`
 }
@@ -246,9 +251,31 @@ func verifPipeline(raw []byte) interface{} {
 		quits = quits[c.Retire:]
 		time.Sleep(20 * time.Millisecond)
 	}
-	for _, d := range c.Dgrams {
+	var early []string
+	if c.FillOwn {
+		for len(mq) < cap(mq) {
+			mq <- []byte("filler")
+		}
+	}
+	drainAt := map[int]bool{}
+	for _, i := range c.DrainAfter {
+		drainAt[i] = true
+	}
+	for i, d := range c.Dgrams {
 		b, _ := hex.DecodeString(d[1])
 		enqueue(verifAddr(d[0]), b)
+		if drainAt[i] {
+			// let the workers finish what they have, then empty the queue
+			for k := 0; k < 500 && udpLen() > 0; k++ {
+				time.Sleep(2 * time.Millisecond)
+			}
+			time.Sleep(20 * time.Millisecond)
+			for len(mq) > 0 {
+				if m := <-mq; string(m) != "filler" {
+					early = append(early, hex.EncodeToString(m))
+				}
+			}
+		}
 	}
 	// quiescence: the receive queue is empty and the queue to the producer has stopped growing
 	deadline := time.Now().Add(20 * time.Second)
@@ -283,8 +310,11 @@ func verifPipeline(raw []byte) interface{} {
 		return res
 	}
 	// the delayed consumer: only now is the outgoing queue read
+	res.Published = early
 	for len(mq) > 0 {
-		res.Published = append(res.Published, hex.EncodeToString(<-mq))
+		if m := <-mq; string(m) != "filler" {
+			res.Published = append(res.Published, hex.EncodeToString(m))
+		}
 	}
 	res.UDPCount, res.Decoded = counters()
 	res.MirroredMsgs = mirrored()
